@@ -116,6 +116,44 @@ def run(chk):
     for wi in range(60 if quick else 400):
         sph = rng.random() < 0.45
         wj, sph = any_world(rng, spherical=sph, lines=0.5, allow_mass_conserving=True)
+        if wi % 6 == 5 and not sph:
+            # a mass conserving slab with parameters at the ends of their ranges; the wedge above the slab top is part of
+            # the feature (negative top truncation), probed in fine vertical steps through the slab top
+            from worlds import line_world
+            wj, sph, lf = line_world(rng, kind="subducting plate", spherical=False, straight=True, uniform_sections=True,
+                                     allow_mass_conserving=True, extra_area=0.0)
+            for k in ("temperature models", "composition models", "grains models", "velocity models", "sections"):
+                lf.pop(k, None)
+            a, b = lf["coordinates"][0], lf["coordinates"][-1]
+            dx, dy = b[0] - a[0], b[1] - a[1]
+            L = math.hypot(dx, dy)
+            nx, ny = -dy / L, dx / L
+            if (lf["dip point"][0] - a[0]) * nx + (lf["dip point"][1] - a[1]) * ny < 0:
+                nx, ny = -nx, -ny
+            mm = {"model": "mass conserving", "spreading velocity": 0.05, "subducting velocity": rng.choice([0.05, 0.01, 0.1]),
+                  "ridge coordinates": [[[float(round(a[0] - nx * 2e6 - dx)), float(round(a[1] - ny * 2e6 - dy))],
+                                         [float(round(b[0] - nx * 2e6 + dx)), float(round(b[1] - ny * 2e6 + dy))]]],
+                  "coupling depth": rng.choice([80e3, 0.0, 1e3]), "taper distance": rng.choice([100e3, 0.0, 1.0]),
+                  "forearc cooling factor": rng.choice([0.0, 0.0, 1.0, 20.0, 1e-12]),
+                  "min distance slab top": -1e5, "max distance slab top": 3e5}
+            lf["segments"] = [{"length": float(round(rng.uniform(3e5, 8e5))), "thickness": [float(round(rng.uniform(1e5, 3e5)))],
+                               "top truncation": [-1e5], "angle": [float(round(rng.uniform(20, 70), 1))]}]
+            lf["temperature models"] = [mm]
+            lf["composition models"] = [{"model": "uniform", "compositions": [0]}]
+            wj["features"] = [lf]
+            th0 = math.radians(lf["segments"][0]["angle"][0])
+            aimed_profile = []
+            for _k in range(2):
+                tt = rng.uniform(0.3, 0.7)
+                u = rng.uniform(3e4, 0.7 * lf["segments"][0]["length"] * math.cos(th0))
+                px, py = a[0] + tt * dx + u * nx, a[1] + tt * dy + u * ny
+                top = lf.get("min depth", 0.0) + u * math.tan(th0)
+                for k in range(-50, 30):
+                    d = float(round(top + 2000.0 * k))
+                    if d >= 0:
+                        aimed_profile.append(("profile through the slab top", (px, py, TOP - d), d))
+        else:
+            aimed_profile = []
         # degenerate but valid parameter values: zero-thickness features, depth surfaces that pinch out, cooling models
         # with parameters at the ends of their documented ranges
         for f in wj["features"]:
@@ -140,7 +178,7 @@ def run(chk):
         sanitize_numbers(wj)
         path = os.path.join(wdir, "w%d.wb" % wi)
         json.dump(wj, open(path, "w"))
-        qs = degenerate_queries(rng, wj, sph)
+        qs = degenerate_queries(rng, wj, sph) + aimed_profile
         feats = wj["features"]
         for _ in range(20):
             lf = [f for f in feats if f["model"] in ("subducting plate", "fault")]
